@@ -8,7 +8,7 @@
             <<"eend", i>>  the framing delimiter that ends the echo of request i
             <<"pre", i>>   what precedes the head of server message i on the wire (1.1: the chunk header line, 1.0: the XML declaration)
             <<"hdr", i>>   the head of server message i (carries message-id i)
-            <<"body", i>>  further bytes of message i
+            <<"body", i>>  further bytes of message i (<<"sbody", i>>: they mention a subscription-id)
             <<"dl", i>>    a DATA line of message i that consists of "##" only (legal chunk data under NETCONF 1.1)
             <<"end", i>>   the framing delimiter that ends message i
    One loop iteration appends what the transport returned (possibly nothing) to the buffer b, then: if b contains
@@ -32,9 +32,12 @@ VARIABLES stream, b, store, next, call, pol, got, owed, asked, nn, pendEcho
 vars == <<stream, b, store, next, call, pol, got, owed, asked, nn, pendEcho>>
 
 \* Pre: the wire form of a message is modelled with its framing prefix as a token of its own (finer cuts, larger state space)
+\* the body of every other reply mentions a subscription ("sbody": the reply to establish-subscription, subscription state read
+\* with get): such a message is a reply AND looks like a message of the subscription, it is filed as both
+Body(i) == IF i % 2 = 1 THEN <<"sbody", i>> ELSE <<"body", i>>
 M(i) == (IF Pre THEN << <<"pre", i>> >> ELSE <<>>) \o
-        (IF DataLines THEN << <<"hdr", i>>, <<"dl", i>>, <<"body", i>>, <<"end", i>> >>
-                      ELSE << <<"hdr", i>>, <<"body", i>>, <<"end", i>> >>)
+        (IF DataLines THEN << <<"hdr", i>>, <<"dl", i>>, Body(i), <<"end", i>> >>
+                      ELSE << <<"hdr", i>>, Body(i), <<"end", i>> >>)
 E(i) == IF SplitEcho THEN << <<"rpch", i>>, <<"rpc", i>>, <<"eend", i>> >> ELSE << <<"rpc", i>>, <<"eend", i>> >>
 \* notification k of the (single) subscription: no message-id, a subscription-id in its head; numbered 20 + k as a server message
 NM(k) == << <<"nhdr", 20 + k>>, <<"nbody", 20 + k>>, <<"nend", 20 + k>> >>
@@ -50,8 +53,8 @@ FirstDelim(s) == CHOOSE k \in 1..Len(s) : Looks(s[k]) /\ \A j \in 1..(k-1) : ~Lo
 IdTok(t) == t[1] = "hdr" \/ (IdFrom = "any" /\ t[1] = "rpch")
 FirstId(s) == IF \E k \in 1..Len(s) : IdTok(s[k])
               THEN s[CHOOSE k \in 1..Len(s) : IdTok(s[k]) /\ \A j \in 1..(k-1) : ~IdTok(s[j])][2] ELSE 0
-HasNotif(s) == \E k \in 1..Len(s) : s[k][1] = "nhdr"
-ServerMsgs(s) == {s[k][2] : k \in {j \in 1..Len(s) : s[j][1] \in {"pre", "hdr", "body", "dl", "end", "nhdr", "nbody", "nend"}}}
+HasNotif(s) == \E k \in 1..Len(s) : s[k][1] \in {"nhdr", "sbody"}
+ServerMsgs(s) == {s[k][2] : k \in {j \in 1..Len(s) : s[j][1] \in {"pre", "hdr", "body", "sbody", "dl", "end", "nhdr", "nbody", "nend"}}}
 OkRead(s) == Cardinality(ServerMsgs(s)) <= 1
 
 \* the filing branch; returns <<buffer, store>>.  store[i], i > 0: the message filed under message-id i; store[0]: the
@@ -129,5 +132,6 @@ StoreExact == \A i \in 1..N : store[i] # <<>> => store[i] = M(i)
 \* with an echoing transport a notification that is still (partly) in the buffer when the echo of the next request
 \* arrives is dropped with that echo (TLC counterexample; the harness checks that the code agrees with the model about
 \* which notifications survive)
-NotifExact == Settled => store[0] = [k \in 1..nn |-> NM(k)]
+IsNotif(m) == \E k \in 1..Len(m) : m[k][1] = "nhdr"
+NotifExact == Settled => SelectSeq(store[0], IsNotif) = [k \in 1..nn |-> NM(k)]
 =============================================================================
